@@ -1,5 +1,5 @@
 import CCV.Model.EvalOps
-import CCV.Lemmas.EvalOps3
+import CCV.Lemmas.EvalOps7
 import CCV.Proofs.C09
 /-
   C09, value-level half — "type inference is sound for evaluation; well-typed programs never crash".
@@ -14,12 +14,16 @@ import CCV.Proofs.C09
 
   For every covered operation, all scalar types, ranks, shapes, parameters and values:
     if `infer op tys = .ok t`, the dependency types are valid (they are types of registered nodes) and the
-    dependency values have those types (`hasType`: `prod shape` residues, each below `2^bits`), then
+    dependency values have those types (`hasType`: `prod shape` residues, each below `2^bits`; the right
+    number of well-typed children for vectors / tuples / named tuples), then
       * SOUNDNESS  the value computed by `evalOp` has type `t`;
-      * TOTALITY   `evalOp` returns a value (the model evaluator is never stuck / never fails) — except for
-                   Gather and InversePermutation, whose run-time errors are characterised exactly
-                   (index out of range / not a permutation), and GetSlice, see `getSlice_value_sound_partial`.
-  Helper lemmas: CCV/Lemmas/EvalOps{,2,3}.lean.
+      * TOTALITY   `evalOp` returns a value (the model evaluator is never stuck / never fails, no index of
+                   `to_vector()`, `flattened_value[..]`, `slice_index` is out of range) — except for Gather,
+                   InversePermutation, ApplyPermutation and VectorGet, whose run-time errors are
+                   characterised exactly (index out of range / not a permutation / vector index ≥ length).
+  GetSlice totality rests on `slices_models_agree`: the typing rule's copy of slices.rs and the evaluator
+  model's copy accept the same slices with the same shapes.
+  Helper lemmas: CCV/Lemmas/EvalOps{,2,3,4,5,6}.lean.
 -/
 namespace CCV.C09
 open CCV CCV.TV CCV.Shape CCV.EvalOps
@@ -457,38 +461,7 @@ theorem gemm_value_sound (ta tb : Bool) : ValueSound (.gemm ta tb) := by
 example : evalOp (.gemm true false) [.array [1, 2, 2] .i8, .array [2, 2, 1] .i8] [.arr [1, 2, 255, 3], .arr [5, 254, 1, 1]]
     = .ok (.arr [7, 4, 0, 5]) := by rfl
 
-/-! ### Reshape / A2B / ArrayToVector -/
-
-/-- **Reshape** between scalar / array types (compound types are not covered by `evalOp`). -/
-theorem reshape_value_sound (nt : Ty) (tys : List Ty) (t : Ty) (vs : List EV)
-    (hflat : isFlat nt = true ∧ ∀ ty ∈ tys, isFlat ty = true)
-    (hi : infer (.reshape nt) tys = .ok t) (hvs : hasTypeL tys vs) :
-    ∃ v, evalOp (.reshape nt) tys vs = .ok v ∧ hasType t v := by
-  obtain ⟨a, rfl⟩ := infer_arity1 hi rfl
-  obtain ⟨v, rfl, hv1⟩ := hasTypeL_one hvs
-  have fa := hflat.2 a (by simp)
-  obtain ⟨xs, rfl, hx⟩ := hasType_flat_arr fa hv1
-  have hr := infer_ok_raw hi
-  simp only [inferRaw, inferReshape] at hr
-  split at hr; · cases hr
-  split at hr; · cases hr
-  rename_i hat
-  injection hr with hr
-  subst hr
-  refine ⟨.arr xs, by simp only [evalOp, hi, un, hflat.1, fa, and_self, if_true], (hasType_flat hflat.1 xs).mpr ?_⟩
-  have e : stE a = stE nt ∧ prod (dimsE a) = prod (dimsE nt) := by
-    rcases isFlat_cases fa with ⟨sa, rfl⟩ | ⟨s, sa, rfl⟩ <;>
-    rcases isFlat_cases hflat.1 with ⟨sb, rfl⟩ | ⟨s', sb, rfl⟩ <;>
-    · simp only [flattenTy, allAtomic, canAtomicReshape, stOf, dimsOf, Bool.and_true, Bool.not_eq_false,
-        Bool.and_eq_true, beq_iff_eq] at hat
-      refine ⟨by simp only [stE, stOf, Option.getD_some]; exact hat.1.1.1, ?_⟩
-      have := hat.2
-      simpa [dimsE, prod, prod_eq, TI.prod] using this
-  rw [← e.1, ← e.2]
-  exact hx
-
-example : evalOp (.reshape (.array [3, 2] .u8)) [.array [2, 3] .u8] [.arr [1, 2, 3, 4, 5, 6]] = .ok (.arr [1, 2, 3, 4, 5, 6]) := by
-  rfl
+/-! ### A2B -/
 
 /-- **A2B**: `bits` entries below 2 per element. -/
 theorem a2b_value_sound : ValueSound .a2b := by
@@ -525,7 +498,7 @@ theorem a2b_value_sound : ValueSound .a2b := by
 example : evalOp .a2b [.array [2] .u8] [.arr [5, 255]] = .ok (.arr [1, 0, 1, 0, 0, 0, 0, 0, 1, 1, 1, 1, 1, 1, 1, 1]) := by
   rfl
 
-/-! ### operations with documented run-time errors: Gather, InversePermutation -/
+/-! ### operations with documented run-time errors: Gather, InversePermutation, ApplyPermutation -/
 
 /-- **Gather**: if every index is below the size of the gathered axis the result exists and has the
     inferred type; otherwise (and only then) evaluation fails with the documented "Incorrect index". -/
@@ -608,39 +581,103 @@ theorem inversePermutation_value_sound (tys : List Ty) (t : Ty) (vs : List EV)
 
 example : evalOp .inversePermutation [.array [4] .u8] [.arr [2, 0, 3, 1]] = .ok (.arr [1, 3, 0, 2]) := by rfl
 
-/-! ### GetSlice (soundness; totality open) -/
+/-- **ApplyPermutation(inverse)** on arrays of any rank: if the index array is a permutation of
+    `0..n-1` (`n` = first dimension) the validity check passes, the inversion succeeds, `gather` reads
+    no row out of range and the value has the inferred type; on anything else (and only then)
+    evaluation fails with the documented run-time error. -/
+theorem applyPermutation_value_sound (inv : Bool) (tys : List Ty) (t : Ty) (vs : List EV)
+    (hv : ∀ ty ∈ tys, ty.isValid = true) (hi : infer (.applyPermutation inv) tys = .ok t) (hvs : hasTypeL tys vs) :
+    ∃ s st ps pst xs perm, tys = [.array s st, .array ps pst] ∧ vs = [.arr xs, .arr perm] ∧
+      ((perm.Nodup ∧ ∀ v ∈ perm, v < perm.length) →
+        ∃ v, evalOp (.applyPermutation inv) tys vs = .ok v ∧ hasType t v) ∧
+      (¬ (perm.Nodup ∧ ∀ v ∈ perm, v < perm.length) →
+        evalOp (.applyPermutation inv) tys vs = .error "Argument 1 doesn't contain a valid permutation.") := by
+  obtain ⟨a, b, rfl⟩ := infer_arity2 hi rfl
+  obtain ⟨v1, v2, rfl, hv1, hv2⟩ := hasTypeL_two hvs
+  have hr := infer_ok_raw hi
+  have ha := hv a (by simp)
+  simp only [inferRaw] at hr
+  cases a with
+  | array s st =>
+    cases b with
+    | array ps pst =>
+      obtain ⟨xs, rfl, hx⟩ := hasType_array hv1
+      obtain ⟨perm, rfl, hy⟩ := hasType_array hv2
+      simp only [inferApplyPermutation] at hr
+      split at hr; · cases hr
+      split at hr; · cases hr
+      rename_i hcond
+      injection hr with hr; subst hr
+      refine ⟨s, st, ps, pst, xs, perm, rfl, rfl, ?_⟩
+      obtain ⟨hne, hpos⟩ := valid_array ha
+      cases s with
+      | nil => exact absurd rfl hne
+      | cons d ds =>
+        have h1 : ps.length = 1 := Classical.byContradiction fun h => hcond (Or.inl h)
+        have h2 : ps.getD 0 0 = d := Classical.byContradiction fun h => hcond (Or.inr (Or.inl h))
+        obtain ⟨k, rfl⟩ := List.length_eq_one_iff.mp h1
+        have hk : k = d := by simpa using h2
+        subst hk
+        have hlen : perm.length = k := by simpa [prod] using hy.1
+        constructor
+        · rintro ⟨hnd, hlt⟩
+          obtain ⟨r, hr, hok⟩ := applyPermutation_typed st inv k ds xs perm hpos hx hlen hnd hlt
+          exact ⟨.arr r, by simp only [evalOp, hi, bin, dimsE, hr, okArr], hasType_array_mk hok⟩
+        · intro hbad
+          have he := applyPermutation_err inv k ds xs perm hlen hbad
+          simp only [evalOp, hi, bin, dimsE, he, okArr]
+    | scalar sb => simp [inferApplyPermutation] at hr
+    | vector n e => simp [inferApplyPermutation] at hr
+    | tuple ts => simp [inferApplyPermutation] at hr
+    | named fs => simp [inferApplyPermutation] at hr
+  | scalar sa => simp [inferApplyPermutation] at hr
+  | vector n e => simp [inferApplyPermutation] at hr
+  | tuple ts => simp [inferApplyPermutation] at hr
+  | named fs => simp [inferApplyPermutation] at hr
 
-/-- what remains open for GetSlice: the model evaluator loop never fails on an accepted slice
-    (`Slices.sliceIndex` returns an index for every result position).  The in-range half is
-    `C09.sliceIndex_in_range` for the `TI` copy of `slice_index`; connecting it to the `CCV.Slices`
-    copy used by `Ops.getSlice` needs the (unproved) equality of the two models of `get_clean_slice`. -/
-def getSlice_total_Statement : Prop :=
-  ∀ (sl : List SliceEl), ValueSound (.getSlice sl)
+example : evalOp (.applyPermutation true) [.array [3, 2] .u8, .array [3] .u16] [.arr [1, 2, 3, 4, 5, 6], .arr [2, 0, 1]]
+    = .ok (.arr [3, 4, 5, 6, 1, 2]) ∧
+    evalOp (.applyPermutation false) [.array [3, 2] .u8, .array [3] .u16] [.arr [1, 2, 3, 4, 5, 6], .arr [2, 0, 0]]
+    = .error "Argument 1 doesn't contain a valid permutation." := ⟨by rfl, by rfl⟩
 
-/-- **GetSlice, soundness half**: whenever the evaluator loop returns a value, it has the inferred
-    type (all ranks, negative steps, ellipsis, scalar results). -/
-theorem getSlice_value_sound_partial (sl : List SliceEl) (tys : List Ty) (t : Ty) (vs : List EV) (v : EV)
-    (hi : infer (.getSlice sl) tys = .ok t) (hvs : hasTypeL tys vs)
-    (hev : evalOp (.getSlice sl) tys vs = .ok v) : hasType t v := by
+/-! ### GetSlice (soundness and totality) -/
+
+/-- **the two models of slices.rs agree**: whenever the typing rule's copy (`TI.getSliceShape`, used by
+    `infer`) accepts a slice with result shape `rs`, the evaluator model's copy (`Slices.getSliceShape`,
+    used by `Ops.getSlice`) accepts it with the same shape (the ellipsis is expanded to the same clean
+    slice, every axis gets the same count). -/
+theorem slices_models_agree {shape : List Nat} {sl : List SliceEl} {rs : List Nat}
+    (h : TI.getSliceShape shape sl = .ok rs) : Slices.getSliceShape shape (sl.map toSE) = .ok rs :=
+  (getSliceShape_agree h).choose_spec.2.2
+
+example : TI.getSliceShape [5, 4, 3] [.sub (some (-1)) none (some (-2)), .ellipsis, .single (-1)] = .ok [3, 4] ∧
+    Slices.getSliceShape [5, 4, 3] [.sub (some (-1)) none (some (-2)), .ellipsis, .single (-1)] = .ok [3, 4] :=
+  ⟨rfl, rfl⟩
+
+/-- **GetSlice** (all ranks, negative indices and steps, ellipsis, scalar results): on an accepted
+    slice the evaluator loop returns a value for every result position (`slice_index` never fails) and
+    the value has the inferred type. -/
+theorem getSlice_value_sound (sl : List SliceEl) : ValueSound (.getSlice sl) := by
+  intro tys t vs _ hi hvs
   obtain ⟨a, rfl⟩ := infer_arity1 hi rfl
   obtain ⟨w, rfl, hv1⟩ := hasTypeL_one hvs
   have hr := infer_ok_raw hi
+  have hvalid := infer_result_valid hi rfl
   simp only [inferRaw] at hr
   cases a with
   | array s st =>
     obtain ⟨xs, rfl, hx⟩ := hasType_array hv1
-    obtain ⟨rs, _, rfl⟩ := getSlice_shape_sound hi
-    simp only [evalOp, hi, un] at hev
-    cases hg : Ops.getSlice (dimsE (.array s st)) xs (sl.map toSE) (dimsE (arrOrScalar rs st)) with
-    | error e => rw [hg] at hev; simp [okArr] at hev
-    | ok r =>
-      rw [hg] at hev
-      simp only [okArr] at hev
-      injection hev with hev
-      subst hev
-      have := getSlice_typed st _ xs _ _ r hx.2 hg
-      rw [prod_dimsE_arrOrScalar] at this
-      exact hasType_arrOrScalar_mk this
+    obtain ⟨rs, hrs, rfl⟩ := getSlice_shape_sound hi
+    have hp : pos rs := by
+      cases rs with
+      | nil => intro d hd; simp at hd
+      | cons d ds => exact (valid_array (s := d :: ds) (st := st) hvalid).2
+    obtain ⟨r, hg⟩ := getSlice_total s xs (sl.map toSE) rs st (slices_models_agree hrs) hp
+    have hg' : Ops.getSlice (dimsE (.array s st)) xs (sl.map toSE) (dimsE (arrOrScalar rs st)) = .ok r := hg
+    refine ⟨.arr r, by simp only [evalOp, hi, un, hg', okArr], ?_⟩
+    have := getSlice_typed st _ xs _ _ r hx.2 hg
+    rw [prod_dimsE_arrOrScalar] at this
+    exact hasType_arrOrScalar_mk this
   | scalar sa => simp [inferGetSlice] at hr
   | vector n e => simp [inferGetSlice] at hr
   | tuple ts => simp [inferGetSlice] at hr
@@ -739,20 +776,315 @@ theorem vectorToArray_value_sound : ValueSound .vectorToArray := by
 
 example : evalOp .vectorToArray [.vector 2 (.array [2] .u8)] [.vec [.arr [1, 2], .arr [3, 4]]] = .ok (.arr [1, 2, 3, 4]) := by rfl
 
+/-! ### Stack / Concatenate / B2A -/
+
+/-- **Stack(outer)**: `prod outer` scalars / arrays of one scalar type, broadcast to the common
+    inner shape and laid out one after the other: the value exists and has type `outer ++ inner`. -/
+theorem stack_value_sound (outer : List Nat) : ValueSound (.stack outer) := by
+  intro tys t vs _ hi hvs
+  have hr := infer_ok_raw hi
+  simp only [inferRaw] at hr
+  obtain ⟨st, full, rfl, _, hprod, hall⟩ := inferStack_facts hr
+  obtain ⟨ps, hps, hl, _, hok⟩ := payloads_typed st tys vs hvs hall
+  refine ⟨.arr (Ops.stack outer ps full), by simp only [evalOp, hi, hps, dimsE], hasType_array_mk ?_⟩
+  have := stack_typed st outer full ps (fun p hp => (hok p hp).2)
+  rw [hl, hprod] at this
+  exact this
+
+example : evalOp (.stack [2]) [.array [2] .u8, .scalar .u8] [.arr [1, 2], .arr [7]] = .ok (.arr [1, 2, 7, 7]) := by
+  rfl
+
+/-- **Concatenate(axis)**: arrays of one scalar type agreeing off the axis: the value exists and has
+    the inferred type (the axis dimension is the sum of the inputs' axis dimensions). -/
+theorem concatenate_value_sound (axis : Nat) : ValueSound (.concatenate axis) := by
+  intro tys t vs _ hi hvs
+  have hr := infer_ok_raw hi
+  simp only [inferRaw] at hr
+  obtain ⟨st, rs, rfl, hax, hsum, hall⟩ := inferConcatenate_facts hr
+  obtain ⟨ps, hps, _, hm, hok⟩ := payloads_typed st tys vs hvs (fun ty hty => ⟨(hall ty hty).1, (hall ty hty).2.1⟩)
+  refine ⟨.arr (Ops.concatenate axis ps rs), by simp only [evalOp, hi, hps, dimsE], hasType_array_mk ?_⟩
+  apply concatenate_typed st axis ps rs hax
+  · intro p hp
+    have hmem : p.1 ∈ tys.map dimsE := by rw [← hm]; exact List.mem_map.mpr ⟨p, hp, rfl⟩
+    obtain ⟨ty, hty, hd⟩ := List.mem_map.mp hmem
+    rw [(hok p hp).1, ← hd]
+    exact (hall ty hty).2.2
+  · intro p hp
+    exact (hok p hp).2
+  · rw [hsum]
+    have : (tys.map fun ty => (dimsE ty).getD axis 0) = (tys.map dimsE).map fun d => d.getD axis 0 := by
+      rw [List.map_map]; rfl
+    rw [this, ← hm, List.map_map]
+    rfl
+
+example : evalOp (.concatenate 1) [.array [2, 1] .u8, .array [2, 2] .u8] [.arr [1, 2], .arr [3, 4, 5, 6]]
+    = .ok (.arr [1, 3, 4, 2, 5, 6]) := by rfl
+
+/-- **B2A(st)**: a bit array whose last dimension is the width of `st` is re-read as residues of `st`. -/
+theorem b2a_value_sound (st : ST) : ValueSound (.b2a st) := by
+  intro tys t vs _ hi hvs
+  obtain ⟨a, rfl⟩ := infer_arity1 hi rfl
+  obtain ⟨v, rfl, hv1⟩ := hasTypeL_one hvs
+  have hr := infer_ok_raw hi
+  simp only [inferRaw, inferUn] at hr
+  obtain ⟨s, rfl, hst, ft, est, hp⟩ := b2aInfer_facts hr
+  obtain ⟨xs, rfl, hx⟩ := hasType_array hv1
+  have hb : ∀ b ∈ xs, b < 2 := hx.2
+  obtain ⟨r, hr, hok⟩ := b2a_typed st hst (prod (dimsE t)) xs (by rw [hx.1, hp]) hb
+  refine ⟨.arr r, by simp only [evalOp, hi, un, hr, okArr], (hasType_flat ft r).mpr ?_⟩
+  rw [est]
+  exact hok
+
+example : ∃ v, evalOp (.b2a .u8) [.array [2, 8] .bit] [.arr [1, 0, 1, 0, 0, 0, 0, 0, 1, 1, 1, 1, 1, 1, 1, 1]] = .ok v ∧
+    hasType (.array [2] .u8) v :=
+  b2a_value_sound .u8 _ _ _ (by decide) rfl (by simp [hasTypeL, hasType, flatOk, Shape.prod]; decide)
+
+/-! ### compound values: constructors, accessors, Zip, Repeat, Reshape -/
+
+/-- **Reshape** (any pair of types accepted by `process_node`, including tuples / named tuples /
+    vectors on either side): `flatten_value` + `unflatten_value` never index out of range and rebuild a
+    value of the new type. -/
+theorem reshape_value_sound (nt : Ty) : ValueSound (.reshape nt) := by
+  intro tys t vs _ hi hvs
+  obtain ⟨a, rfl⟩ := infer_arity1 hi rfl
+  obtain ⟨v, rfl, hv1⟩ := hasTypeL_one hvs
+  have hr := infer_ok_raw hi
+  simp only [inferRaw, inferReshape] at hr
+  split at hr; · cases hr
+  rename_i hlen
+  have hlen : (flattenTy a).length = (flattenTy nt).length := Classical.byContradiction fun hne => hlen hne
+  split at hr; · cases hr
+  rename_i hat
+  have hat : allAtomic (flattenTy a) (flattenTy nt) = true := by
+    cases hb : allAtomic (flattenTy a) (flattenTy nt) with
+    | true => rfl
+    | false => exact absurd hb hat
+  injection hr with hr
+  subst hr
+  have h1 := flattenEV_typed a v hv1
+  have h2 := allAtomic_hasTypeL _ _ _ hat hlen h1
+  obtain ⟨r, rest, e1, e2, _⟩ := unflat_typed nt [] (flattenEV v) (by simpa using h2)
+  exact ⟨r, by simp only [evalOp, hi, e1], e2⟩
+
+example : evalOp (.reshape (.tuple [.array [1, 2] .u8, .vector 1 (.array [2] .u8)])) [.vector 2 (.array [2] .u8)]
+    [.vec [.arr [1, 2], .arr [3, 4]]] = .ok (.vec [.arr [1, 2], .vec [.arr [3, 4]]]) := by rfl
+
+example : evalOp (.reshape (.array [3, 2] .u8)) [.array [2, 3] .u8] [.arr [1, 2, 3, 4, 5, 6]] = .ok (.arr [1, 2, 3, 4, 5, 6]) := by
+  rfl
+
+/-- **CreateTuple**: the dependency values, in order. -/
+theorem createTuple_value_sound : ValueSound .createTuple := by
+  intro tys t vs _ hi hvs
+  have hr := infer_ok_raw hi
+  simp only [inferRaw] at hr
+  injection hr with hr; subst hr
+  exact ⟨.vec vs, by simp only [evalOp, hi], by simp only [hasType]; exact hvs⟩
+
+/-- **CreateNamedTuple**. -/
+theorem createNamedTuple_value_sound (names : List String) : ValueSound (.createNamedTuple names) := by
+  intro tys t vs _ hi hvs
+  have hr := infer_ok_raw hi
+  simp only [inferRaw] at hr
+  split at hr; · cases hr
+  rename_i hlen
+  have hlen : tys.length = names.length := Classical.byContradiction fun hne => hlen hne
+  split at hr; · cases hr
+  injection hr with hr; subst hr
+  exact ⟨.vec vs, by simp only [evalOp, hi], by simp only [hasType]; exact hasTypeN_zip names tys vs hlen hvs⟩
+
+/-- **CreateVector(et)**. -/
+theorem createVector_value_sound (et : Ty) : ValueSound (.createVector et) := by
+  intro tys t vs _ hi hvs
+  have hr := infer_ok_raw hi
+  simp only [inferRaw] at hr
+  split at hr
+  · rename_i hall
+    injection hr with hr; subst hr
+    have heq : ∀ ty ∈ tys, ty = et := fun ty hty => Ty.eq_of_beq ty et ((List.all_eq_true.mp hall) ty hty)
+    obtain ⟨h1, h2⟩ := hasTypeL_const et tys vs heq hvs
+    exact ⟨.vec vs, by simp only [evalOp, hi], by simp only [hasType]; exact ⟨h1, h2⟩⟩
+  · cases hr
+
+example : evalOp (.createVector (.scalar .u8)) [.scalar .u8, .scalar .u8] [.arr [1], .arr [2]] = .ok (.vec [.arr [1], .arr [2]]) := by
+  rfl
+
+/-- **TupleGet(i)** on a tuple or a named tuple: the index accepted by the type checker is in range
+    for `to_vector()` of the value. -/
+theorem tupleGet_value_sound (i : Nat) : ValueSound (.tupleGet i) := by
+  intro tys t vs _ hi hvs
+  obtain ⟨a, rfl⟩ := infer_arity1 hi rfl
+  obtain ⟨v, rfl, hv1⟩ := hasTypeL_one hvs
+  have hr := infer_ok_raw hi
+  simp only [inferRaw] at hr
+  cases a with
+  | tuple ts =>
+    cases v with
+    | arr xs => simp [hasType] at hv1
+    | vec cs =>
+      simp only [hasType] at hv1
+      simp only [inferTupleGet] at hr
+      cases hg : ts[i]? with
+      | none => rw [hg] at hr; cases hr
+      | some t' =>
+        rw [hg] at hr
+        injection hr with hr; subst hr
+        obtain ⟨c, hc, hty⟩ := hasTypeL_getElem ts cs i t' hv1 hg
+        exact ⟨c, by simp only [evalOp, hi, hc], hty⟩
+  | named fs =>
+    cases v with
+    | arr xs => simp [hasType] at hv1
+    | vec cs =>
+      simp only [hasType] at hv1
+      simp only [inferTupleGet] at hr
+      cases hg : fs[i]? with
+      | none => rw [hg] at hr; cases hr
+      | some nt' =>
+        obtain ⟨n', t'⟩ := nt'
+        rw [hg] at hr
+        injection hr with hr; subst hr
+        obtain ⟨c, hc, hty⟩ := hasTypeN_getElem fs cs i n' t' hv1 hg
+        exact ⟨c, by simp only [evalOp, hi, hc], hty⟩
+  | scalar sa => simp [inferTupleGet] at hr
+  | array s sa => simp [inferTupleGet] at hr
+  | vector n e => simp [inferTupleGet] at hr
+
+example : evalOp (.tupleGet 1) [.tuple [.scalar .u8, .array [2] .bit]] [.vec [.arr [7], .arr [1, 0]]] = .ok (.arr [1, 0]) := by
+  rfl
+
+/-- **NamedTupleGet(name)**: the evaluator's search for the field succeeds (`unwrap` is safe) and
+    finds the child whose type the type checker returned. -/
+theorem namedTupleGet_value_sound (name : String) : ValueSound (.namedTupleGet name) := by
+  intro tys t vs _ hi hvs
+  obtain ⟨a, rfl⟩ := infer_arity1 hi rfl
+  obtain ⟨v, rfl, hv1⟩ := hasTypeL_one hvs
+  have hr := infer_ok_raw hi
+  simp only [inferRaw] at hr
+  cases a with
+  | named fs =>
+    cases v with
+    | arr xs => simp [hasType] at hv1
+    | vec cs =>
+      simp only [hasType] at hv1
+      simp only [inferNamedTupleGet] at hr
+      cases hg : lookupField name fs with
+      | none => rw [hg] at hr; cases hr
+      | some t' =>
+        rw [hg] at hr
+        injection hr with hr; subst hr
+        obtain ⟨k, c, hk, hc, hty⟩ := hasTypeN_lookup name fs cs t' hv1 hg
+        exact ⟨c, by simp only [evalOp, hi, hk, hc], hty⟩
+  | scalar sa => simp [inferNamedTupleGet] at hr
+  | array s sa => simp [inferNamedTupleGet] at hr
+  | vector n e => simp [inferNamedTupleGet] at hr
+  | tuple ts => simp [inferNamedTupleGet] at hr
+
+example : evalOp (.namedTupleGet "b") [.named [("a", .scalar .u8), ("b", .scalar .bit)]] [.vec [.arr [1], .arr [0]]]
+    = .ok (.arr [0]) := by rfl
+
+/-- **VectorGet** (the one run-time error of the accessors): the dependencies are a vector of `n`
+    elements and a UINT64 / UINT32 scalar `i`; if `i < n` the element exists and has the element
+    type, if `n ≤ i` (and only then) evaluation fails with the documented "Index out of range". -/
+theorem vectorGet_value_sound (tys : List Ty) (t : Ty) (vs : List EV)
+    (hi : infer .vectorGet tys = .ok t) (hvs : hasTypeL tys vs) :
+    ∃ n et ist cs i, tys = [.vector n et, .scalar ist] ∧ vs = [.vec cs, .arr [i]] ∧
+      (i < n → ∃ v, evalOp .vectorGet tys vs = .ok v ∧ hasType t v) ∧
+      (n ≤ i → evalOp .vectorGet tys vs = .error "Index out of range") := by
+  obtain ⟨a, b, rfl⟩ := infer_arity2 hi rfl
+  obtain ⟨v1, v2, rfl, hv1, hv2⟩ := hasTypeL_two hvs
+  have hr := infer_ok_raw hi
+  simp only [inferRaw, inferVectorGet] at hr
+  split at hr; · cases hr
+  rename_i hidx
+  have hb : ∃ ist, b = .scalar ist := by
+    by_cases h64 : Ty.beq b (.scalar .u64) = true
+    · exact ⟨_, Ty.eq_of_beq _ _ h64⟩
+    · by_cases h32 : Ty.beq b (.scalar .u32) = true
+      · exact ⟨_, Ty.eq_of_beq _ _ h32⟩
+      · exact absurd ⟨by simpa using h64, by simpa using h32⟩ hidx
+  obtain ⟨ist, rfl⟩ := hb
+  cases a with
+  | vector n et =>
+    simp only [] at hr
+    injection hr with hr; subst hr
+    cases v1 with
+    | arr xs => simp [hasType] at hv1
+    | vec cs =>
+      simp only [hasType] at hv1
+      obtain ⟨xs, rfl, hx⟩ := hasType_scalar hv2
+      obtain ⟨i, rfl⟩ := List.length_eq_one_iff.mp hx.1
+      refine ⟨n, et, ist, cs, i, rfl, rfl, ?_, ?_⟩
+      · intro hlt
+        have hic : i < cs.length := by rw [hv1.1]; exact hlt
+        refine ⟨cs[i], ?_, hv1.2 _ (List.getElem_mem hic)⟩
+        simp only [evalOp, hi, if_neg (Nat.not_le.mpr hlt), List.getElem?_eq_getElem hic]
+      · intro hge
+        simp only [evalOp, hi, if_pos hge]
+  | scalar sa => simp at hr
+  | array s sa => simp at hr
+  | tuple ts => simp at hr
+  | named fs => simp at hr
+
+example : evalOp .vectorGet [.vector 2 (.scalar .u8), .scalar .u64] [.vec [.arr [1], .arr [2]], .arr [1]] = .ok (.arr [2]) ∧
+    evalOp .vectorGet [.vector 2 (.scalar .u8), .scalar .u64] [.vec [.arr [1], .arr [2]], .arr [2]]
+      = .error "Index out of range" := ⟨rfl, rfl⟩
+
+/-- **Zip**: vectors of one length `n` become a vector of `n` tuples. -/
+theorem zip_value_sound : ValueSound .zip := by
+  intro tys t vs _ hi hvs
+  have hr := infer_ok_raw hi
+  simp only [inferRaw, inferZip] at hr
+  split at hr; · cases hr
+  rename_i hlen
+  cases hz : zipGo tys none with
+  | error e => rw [hz] at hr; cases hr
+  | ok r =>
+    obtain ⟨n, ets⟩ := r
+    rw [hz] at hr
+    injection hr with hr; subst hr
+    obtain ⟨htys, _⟩ := zipGo_facts tys none n ets hz
+    subst htys
+    obtain ⟨cols, hc, hok⟩ := colsOf_typed n ets vs hvs
+    have hne : ets ≠ [] := by
+      intro he; subst he; simp at hlen
+    exact ⟨.vec (zipRows cols), by simp only [evalOp, hi, hc], zipRows_typed n ets cols hok hne⟩
+
+example : evalOp .zip [.vector 2 (.scalar .u8), .vector 2 (.scalar .bit)] [.vec [.arr [1], .arr [2]], .vec [.arr [0], .arr [1]]]
+    = .ok (.vec [.vec [.arr [1], .arr [0]], .vec [.arr [2], .arr [1]]]) := by rfl
+
+/-- **Repeat(n)**. -/
+theorem repeat_value_sound (n : Nat) : ValueSound (.repeat_ n) := by
+  intro tys t vs _ hi hvs
+  obtain ⟨a, rfl⟩ := infer_arity1 hi rfl
+  obtain ⟨v, rfl, hv1⟩ := hasTypeL_one hvs
+  have hr := infer_ok_raw hi
+  simp only [inferRaw, inferUn] at hr
+  injection hr with hr; subst hr
+  refine ⟨.vec (List.replicate n v), by simp only [evalOp, hi], ?_⟩
+  simp only [hasType, List.length_replicate, true_and]
+  intro w hw
+  rw [(List.mem_replicate.mp hw).2]
+  exact hv1
+
+example : evalOp (.repeat_ 2) [.array [2] .u8] [.arr [1, 2]] = .ok (.vec [.arr [1, 2], .arr [1, 2]]) := by rfl
+
 /-! ### summary -/
 
 /-- the operations for which soundness AND totality are proved without side conditions -/
 def totalOp : Op → Bool
   | .add | .subtract | .multiply | .mixedMultiply | .dot | .matmul | .gemm _ _ | .truncate _
-  | .sum _ | .cumSum _ | .permuteAxes _ | .get _ | .nop | .a2b | .arrayToVector | .vectorToArray => true
+  | .sum _ | .cumSum _ | .permuteAxes _ | .get _ | .getSlice _ | .reshape _ | .nop
+  | .stack _ | .concatenate _ | .a2b | .b2a _ | .arrayToVector | .vectorToArray
+  | .createTuple | .createNamedTuple _ | .createVector _ | .tupleGet _ | .namedTupleGet _ | .zip | .repeat_ _ => true
   | _ => false
 
 /-- **Summary**: for each of Add, Subtract, Multiply, MixedMultiply, Dot, Matmul, Gemm, Truncate, Sum,
-    CumSum, PermuteAxes, Get, NOP, A2B, ArrayToVector, VectorToArray: if the node is accepted by type inference with type `t` and the
-    dependency values have the (valid) dependency types, then evaluating the node never fails and the
-    value has type `t`.  (Reshape of flat types: `reshape_value_sound`; Gather / InversePermutation with
-    their exact run-time error conditions: `gather_value_sound`, `inversePermutation_value_sound`;
-    GetSlice soundness: `getSlice_value_sound_partial`.) -/
+    CumSum, PermuteAxes, Get, GetSlice, Reshape, NOP, Stack, Concatenate, A2B, B2A, ArrayToVector,
+    VectorToArray, CreateTuple, CreateNamedTuple, CreateVector, TupleGet, NamedTupleGet, Zip, Repeat: if the
+    node is accepted by type inference with type `t` and the dependency values have the (valid)
+    dependency types, then evaluating the node never fails and the value has type `t`.
+    (The four operations with a data-dependent run-time error are characterised exactly by
+    `gather_value_sound`, `inversePermutation_value_sound`, `applyPermutation_value_sound`,
+    `vectorGet_value_sound`.) -/
 theorem eval_hasType (op : Op) (h : totalOp op = true) : ValueSound op := by
   cases op
   case add => exact arith_value_sound.1
@@ -767,10 +1099,22 @@ theorem eval_hasType (op : Op) (h : totalOp op = true) : ValueSound op := by
   case cumSum axis => exact cumSum_value_sound axis
   case permuteAxes axes => exact permuteAxes_value_sound axes
   case get idx => exact get_value_sound idx
+  case getSlice sl => exact getSlice_value_sound sl
+  case reshape nt => exact reshape_value_sound nt
   case nop => exact nop_value_sound
+  case stack outer => exact stack_value_sound outer
+  case concatenate axis => exact concatenate_value_sound axis
   case a2b => exact a2b_value_sound
+  case b2a st => exact b2a_value_sound st
   case arrayToVector => exact arrayToVector_value_sound
   case vectorToArray => exact vectorToArray_value_sound
+  case createTuple => exact createTuple_value_sound
+  case createNamedTuple names => exact createNamedTuple_value_sound names
+  case createVector et => exact createVector_value_sound et
+  case tupleGet i => exact tupleGet_value_sound i
+  case namedTupleGet name => exact namedTupleGet_value_sound name
+  case zip => exact zip_value_sound
+  case repeat_ n => exact repeat_value_sound n
   all_goals simp [totalOp] at h
 
 example : ∃ v, evalOp (.gemm false true) [.array [2, 2] .u8, .array [2, 2] .u8] [.arr [1, 2, 3, 4], .arr [5, 6, 7, 8]] = .ok v ∧
